@@ -118,53 +118,52 @@ package route
 //@   abstract
 //@   noinline
 //@   panics
-//@   assert before handle: sameSlice(arg3, handlers) && arg0 == group
+//@   assert before handle: sameSlice(arg3, old(handlers)) && arg0 == group
 //@ func RouterGroup.POST(group, relativePath, handlers) r
 //@   props C12
 //@   abstract
 //@   noinline
 //@   panics
-//@   assert before handle: sameSlice(arg3, handlers) && arg0 == group
+//@   assert before handle: sameSlice(arg3, old(handlers)) && arg0 == group
 //@ func RouterGroup.GET(group, relativePath, handlers) r
 //@   props C12
 //@   abstract
 //@   noinline
 //@   panics
-//@   assert before handle: sameSlice(arg3, handlers) && arg0 == group
+//@   assert before handle: sameSlice(arg3, old(handlers)) && arg0 == group
 //@ func RouterGroup.DELETE(group, relativePath, handlers) r
 //@   props C12
 //@   abstract
 //@   noinline
 //@   panics
-//@   assert before handle: sameSlice(arg3, handlers) && arg0 == group
+//@   assert before handle: sameSlice(arg3, old(handlers)) && arg0 == group
 //@ func RouterGroup.PATCH(group, relativePath, handlers) r
 //@   props C12
 //@   abstract
 //@   noinline
 //@   panics
-//@   assert before handle: sameSlice(arg3, handlers) && arg0 == group
+//@   assert before handle: sameSlice(arg3, old(handlers)) && arg0 == group
 //@ func RouterGroup.PUT(group, relativePath, handlers) r
 //@   props C12
 //@   abstract
 //@   noinline
 //@   panics
-//@   assert before handle: sameSlice(arg3, handlers) && arg0 == group
+//@   assert before handle: sameSlice(arg3, old(handlers)) && arg0 == group
 //@ func RouterGroup.OPTIONS(group, relativePath, handlers) r
 //@   props C12
 //@   abstract
 //@   noinline
 //@   panics
-//@   assert before handle: sameSlice(arg3, handlers) && arg0 == group
+//@   assert before handle: sameSlice(arg3, old(handlers)) && arg0 == group
 //@ func RouterGroup.HEAD(group, relativePath, handlers) r
 //@   props C12
 //@   abstract
 //@   noinline
 //@   panics
-//@   assert before handle: sameSlice(arg3, handlers) && arg0 == group
+//@   assert before handle: sameSlice(arg3, old(handlers)) && arg0 == group
 //@ func RouterGroup.Any(group, relativePath, handlers) r
 //@   props C12
 //@   abstract
 //@   noinline
 //@   panics
-//@   assert before handle: sameSlice(arg3, handlers) && arg0 == group
-
+//@   assert before handle: sameSlice(arg3, old(handlers)) && arg0 == group
